@@ -33,7 +33,7 @@ def err(path, node, msg):
 
 
 def translate(path):
-    tree = normalise(ast.parse(open(path).read(), filename=path))
+    tree = normalise(ast.parse(open(path).read(), filename=path), path)
     fn = [n for n in tree.body if isinstance(n, ast.FunctionDef) and n.name == 'ntv2_2d']
     if len(fn) != 1:
         raise TranslateError(f'{path}: ntv2_2d not found')
@@ -164,7 +164,7 @@ def translate_interp(path):
     Reading: `sg.<field>` / `in_grid.<field>` / `grid_object.subgrids[sg].<field>` ↦ the field of a `SubGrid`; `a <= b < c` ↦ `ops.le a b &&
     ops.lt b c`; `int(x)` ↦ `ops.truncI x`; `int(round(x))` ↦ `ops.roundI x`; `x / y` ↦ ZeroDivisionError when `ops.isZero y`;
     `min` on ints; `not inc` ↦ `inc` is None or zero; `method == 'bicubic'` ↦ the Boolean `wantBicubic`."""
-    tree = normalise(ast.parse(open(path).read(), filename=path))
+    tree = normalise(ast.parse(open(path).read(), filename=path), path)
     fn = [n for n in tree.body if isinstance(n, ast.FunctionDef) and n.name == 'interpolate_ntv2']
     if len(fn) != 1:
         raise TranslateError(f'{path}: interpolate_ntv2 not found')
